@@ -108,7 +108,7 @@ def gen_call(lib, k, call):
             A.append(flit(args[n], T))
         elif kd in ("implied", "len_hidden"):
             continue
-        elif kd == "cls_cptr":
+        elif kd in ("cls_cptr", "cls_cref", "cls_ref"):
             A.append(call["arg_objs"][n])
         elif kd in ("ptr_in", "ptr_inout", "ref_inout"):
             D.append("%s :: %s" % (ftype(T), vn))
